@@ -175,7 +175,24 @@ def run_ops(n, scale, ops_source, rng, length):
                 games.append(g + games[op["o2"] - 1])
         except (AssertionError, ValueError, IndexError, TypeError, AttributeError) as ex:
             outcome = type(ex).__name__
-        ev = {"op": nm, "o": op["o"], "o2": op["o2"], "c": op["c"], "x": D.exact_int(op["x"], scale), "cs": list(op["cs"]),
+        # equality of game objects (every pair of live objects, after the call) and the refusal to compare with a non-game
+        eq = []
+        for gi in games:
+            row = []
+            for gj in games:
+                try:
+                    row.append(int(bool(gi == gj)))
+                except Exception:  # noqa: BLE001
+                    row.append(2)
+            eq.append(row)
+        try:
+            games[0] == 5
+            eq_other = 0
+        except AttributeError:
+            eq_other = 1
+        except Exception:  # noqa: BLE001
+            eq_other = 0
+        ev = {"op": nm, "o": op["o"], "o2": op["o2"], "c": op["c"], "x": D.exact_int(op["x"], scale), "cs": list(op["cs"]), "eq": eq, "eq_other": eq_other,
               "xs": [D.exact_int(x, scale) for x in op["xs"]], "all": int(op.get("all", 0)), "outcome": outcome,
               "objs": [snapshot(x, n, scale) for x in games]}
         trace_events.append(ev)
